@@ -40,3 +40,20 @@ DRIVERS = sorted(set(_BY_NAME.values()))
 def classify(e, w, h):
     d = _BY_NAME.get(e["ptr"])
     return (d, w, h, 0, 0) if d else None
+
+
+# what each driver enumerates (copied into the evidence; full statement in the header comments of the C sources)
+DOC = {
+    'blend family (blend_*)':
+        'sizes 2x2..128x128 (d16: the 22 AV1 sizes; 1-D OBMC masks: {2..128}^2) x (subw,subh) {(0,0),(1,1),(1,0)} x aliasing {none, dst==src0, dst==src1} x stride configurations x masks 0..64 (and svt_av1_get_obmc_mask) x all pattern pairs with the third input cycling; complete cubes on 4x4; complete (mask, src0, src1) value sweep 65x256x256 for one size per width class; bit depth 8/10/12 for highbd; d16 sources over the exact CONV_BUF range',
+    'diffwtd_*':
+        '16 block sizes with min(w,h)>=8 x both mask types x strides x all pattern pairs + complete (src0,src1) value-pair sweep',
+    'wedge_*':
+        'N 64..16384 (sse) / 64..1024 x residual ranges +-255, +-1023 x masks 0..64; sign: ds from delta_squares_c and over the int16 range, limit in {acc-1, acc, acc+1, 0, -acc}',
+    'cfl_*':
+        '14 CfL sizes x strides x offsets x bit depth; predict: every alpha_q3 -16..16 x DC levels x AC manufactured by the C subsampling + subtract_average (the only input form callers produce)',
+    'subtract_block*, sse_wxh*, mse_void_hbd8':
+        '22 block sizes x strides x offsets x all pattern pairs + complete value-pair sweeps (8-bit, 10-bit)',
+    'upsampled_pred':
+        '22 block sizes x all 64 sub-pel positions x 4-tap/8-tap x strides x reference offset x patterns',
+}
